@@ -12,7 +12,7 @@ import PdfModel.Model.StrLexer
   IndexMap::insert (Dictionary::insert)       `dictInsert` (replace in place, else append)
   ParseFlags (bitflags u16) / check           `Flags` constants / `check`
   MAX_DEPTH                                   `maxDepth`
-  enc::decode_nibble                          `decodeNibble` (`a..=h`, `A..=H` as written)
+  enc::decode_nibble                          `decodeNibble` (`a..=f`, `A..=F`)
   decode_name (parser/mod.rs)                 `decodeName` + `utf8Valid` (`SmallString::from_utf8`)
   Context { decoder, id }                     `ctx : Option (Nat × Nat)` (the id) and `Env.decrypt`
   parse_with_lexer_ctx (wrapper, rollback)    `parseCtx`
@@ -91,11 +91,11 @@ def check (flags allowed : Nat) : Out Unit :=
 
 def maxDepth : Nat := 20
 
-/-- `enc::decode_nibble` -/
+/-- `enc::decode_nibble` (`0-9 a-f A-F`; before the `fix:` commit of the C05 package also `g h G H`) -/
 def decodeNibble (c : UInt8) : Option UInt8 :=
   if 48 ≤ c && c ≤ 57 then some (c - 48)
-  else if 97 ≤ c && c ≤ 104 then some (c - 97 + 10)
-  else if 65 ≤ c && c ≤ 72 then some (c - 65 + 10)
+  else if 97 ≤ c && c ≤ 102 then some (c - 97 + 10)
+  else if 65 ≤ c && c ≤ 70 then some (c - 65 + 10)
   else none
 
 def isCont (b : UInt8) : Bool := 128 ≤ b && b ≤ 191
